@@ -27,7 +27,7 @@ def constexpr_inputs(ctx):
     if ctx.quick:
         r = ctx.tlc("OpCases", "MC_OpCases_quick.cfg", workers=16, env={"C_PROGS": progs, "OPCASES_PART": (ctx.seed + 5) % 16}, timeout=900)
     else:
-        r = ctx.tlc("OpCases", "MC_OpCases_thorough.cfg", workers=16, env={"C_PROGS": progs, "OPCASES_PART": 0}, timeout=3000, heap="6g")
+        r = ctx.tlc("OpCases", "MC_OpCases_allsmall.cfg", workers=16, env={"C_PROGS": progs, "OPCASES_PART": 0}, timeout=5400, heap="6g")
     if not r.ok:
         raise vlib.MachineryError("OpCases.tla failed:\n" + r.out[-2000:])
     cases = [json.loads(v) for v in sorted(set(r.vcases))]
